@@ -439,8 +439,11 @@ class BPlusTreeMap:
 
     def _delete_from_leaf(self, leaf: "LeafNode", key: Any) -> bool:
         """Delete from a leaf node. Returns True if deleted, False if not found."""
-        deleted = leaf.delete(key)
-        return deleted is not None
+        # Decide by presence, not by the removed value: a stored None is a value like any other.
+        _pos, exists = leaf.find_position(key)
+        if exists:
+            leaf.delete(key)
+        return exists
 
     def keys(self, start_key=None, end_key=None) -> Iterator[Any]:
         """Return an iterator over keys in the given range"""
